@@ -245,6 +245,28 @@ def liveL : List TCfg → Bool
   | [] => false
   | t :: ts => live t || liveL ts
 end
+
+mutual
+/-- the configuration contains ON WATERMARK on key column `idx` -/
+def hasWm (idx : Nat) : TCfg → Bool
+  | .watermark i => i == idx
+  | .multi ts => hasWmL idx ts
+  | _ => false
+def hasWmL (idx : Nat) : List TCfg → Bool
+  | [] => false
+  | t :: ts => hasWm idx t || hasWmL idx ts
+end
+
+mutual
+/-- the configuration consists of ON WATERMARK (on key column `idx`) only -/
+def onlyWm (idx : Nat) : TCfg → Bool
+  | .watermark i => i == idx
+  | .multi ts => onlyWmL idx ts
+  | _ => false
+def onlyWmL (idx : Nat) : List TCfg → Bool
+  | [] => true
+  | t :: ts => onlyWm idx t && onlyWmL idx ts
+end
 end TCfg
 
 end Octo.Trig
